@@ -3,11 +3,13 @@ import os, subprocess, tempfile, time, threading, shutil, re, hashlib
 from concurrent.futures import ThreadPoolExecutor
 import z3
 
+_PROBE = os.environ.get('GVC_PROBE_SEED')       # robustness probe only: perturbs the default solvers' random seeds
+_ps = (['smt.random_seed=%s' % _PROBE, 'sat.random_seed=%s' % _PROBE] if _PROBE else [])
 SOLVERS = {
-    'z3-new': lambda f, t: ['z3-new', '-T:%d' % max(1, int(t)), f],
+    'z3-new': lambda f, t: ['z3-new', '-T:%d' % max(1, int(t))] + _ps + [f],
     'z3-new-s1': lambda f, t: ['z3-new', '-T:%d' % max(1, int(t)), 'smt.random_seed=7', 'sat.random_seed=7', f],
     'z3-new-s2': lambda f, t: ['z3-new', '-T:%d' % max(1, int(t)), 'smt.random_seed=23', 'smt.arith.random_initial_value=true', f],
-    'z3':     lambda f, t: ['z3', '-T:%d' % max(1, int(t)), f],
+    'z3':     lambda f, t: ['z3', '-T:%d' % max(1, int(t))] + _ps + [f],
     'cvc5':   lambda f, t: ['cvc5', '--tlimit=%d' % int(t * 1000), '--lang=smt2', f],
 }
 
@@ -139,6 +141,8 @@ def _inproc_check(args):
         ctx = _z3.Context()
         sv = _z3.Solver(ctx=ctx)
         sv.set('timeout', timeout_ms)
+        if _PROBE:
+            sv.set('random_seed', int(_PROBE))
         sv.from_string(txt.replace('(get-model)', ''))
         r = str(sv.check())
     except Exception as e:
@@ -150,7 +154,7 @@ class Portfolio:
         self.tier = tier
         self.jobs = jobs or min(16, os.cpu_count() or 4)
         self.timeout = 10 if tier == 'quick' else 60
-        self.order = order or ['z3-new', 'z3', 'cvc5', 'z3-new-s1', 'z3-new-s2']
+        self.order = order or ['z3-new', 'cvc5', 'z3', 'z3-new-s1', 'z3-new-s2']
         self.workdir = workdir or tempfile.mkdtemp(prefix='gvc-')
         self.own = workdir is None
         self.solver_seconds = 0.0
